@@ -29,3 +29,6 @@ Definition classified_ranges : list (string * range_class) :=
     ("internal/types/object.go:MergeObjectMap", BuildsMap);
     ("internal/types/object.go:MergeStringMap", BuildsMap);
     ("internal/validator/report.go:defineIdRecursively", IdsFromKeys) ].
+
+(* how Normalize drives the JSON-LD processor: default options (JSON-LD 1.1), empty base, empty context *)
+Definition ref_normalize_options : list string := ["NewJsonLdOptions("""")"; "Flatten(json, context, options)"].
